@@ -148,7 +148,7 @@ def build(case):
         for w in tm["workers"]:
             gi = len(workers)
             wk = BaseWorker(
-                "wn%d" % w.get("name", gi), ID="w%d" % gi, team_id=(tid_fmt % ti),
+                "wn%d" % w.get("name", gi), ID="w%d" % gi, team_id=(None if case.get("adopt_ids") else tid_fmt % ti),
                 cost_per_time=fl(w.get("cost", "0")), solo_working=bool(w.get("solo", False)),
                 workamount_skill_mean_map={"n%s" % k: fl(v) for k, v in w.get("skills", {}).items()},
                 facility_skill_map={"fn%s" % k: fl(v) for k, v in w.get("fskills", {}).items()},
@@ -165,7 +165,7 @@ def build(case):
         for f in wp.get("facs", []):
             gi = len(facs)
             fc = BaseFacility(
-                "fn%d" % f.get("name", gi), ID="f%d" % gi, workplace_id="wp%d" % pi,
+                "fn%d" % f.get("name", gi), ID="f%d" % gi, workplace_id=(None if case.get("adopt_ids") else "wp%d" % pi),
                 cost_per_time=fl(f.get("cost", "0")), solo_working=bool(f.get("solo", False)),
                 workamount_skill_mean_map={"n%s" % k: fl(v) for k, v in f.get("skills", {}).items()},
                 absence_time_list=list(f.get("abs", [])),
